@@ -436,7 +436,7 @@ def decode_dataclass(ti, d, tvmap, o):
         if val is None and nullable(ft, f, tv):
             kwargs[n] = None
             continue
-        if getattr(f.metadata.get("deserialize"), "__name__", "") == "pass_through":
+        if type(f.metadata.get("deserialize")).__name__ == "_PassThrough":
             kwargs[n] = val  # documented field option: the value is taken over unchanged
             continue
         try:
